@@ -163,7 +163,7 @@ func checkDecoded(ufd UnixFSData, m *lmsg) {
 		verifrt.Assert(mt.FieldSeconds().Int() == m.seconds, "decode:seconds")
 		verifrt.Assert(mt.FieldFractionalNanoseconds().Exists() == m.hasNanos, "decode:nanos-presence")
 		if m.hasNanos {
-			verifrt.Assert(uint32(mt.FieldFractionalNanoseconds().Must().Int()) == m.nanos, "decode:nanos")
+			verifrt.Assert(mt.FieldFractionalNanoseconds().Must().Int() == int64(m.nanos), "decode:nanos") // fixed32: an unsigned value (0..2^32-1) in the logical message
 		}
 	}
 	// permissions as the statement defines them
@@ -321,7 +321,7 @@ func VerifDecodeTime() {
 	verifrt.Assert(ut.FieldSeconds().Int() == sec, "decode:seconds")
 	verifrt.Assert(ut.FieldFractionalNanoseconds().Exists() == hasN, "decode:nanos-presence")
 	if hasN {
-		verifrt.Assert(uint32(ut.FieldFractionalNanoseconds().Must().Int()) == nanos, "decode:nanos")
+		verifrt.Assert(ut.FieldFractionalNanoseconds().Must().Int() == int64(nanos), "decode:nanos") // fixed32: unsigned in the logical message
 	}
 	verifrt.Reach("end")
 }
